@@ -92,6 +92,15 @@ func C18(c *fw.Ctx) {
 			cj.Projects[2] = proto.ConcProject{Name: "opt-enum-macro.jst", Content: macroDoc, SharedBan: [][]string{{"ENUM"}, {"MACRO"}}}
 			cj.Projects[5] = proto.ConcProject{Name: "opt-tag-enum.jst", Content: macroDoc, SharedBan: [][]string{{"TAG"}, {"ENUM"}}}
 			cj.Projects[6] = proto.ConcProject{Name: "opt-enum-type.jst", Content: macroDoc, SharedBan: [][]string{{"ENUM"}, {"TYPE"}}}
+			// projects with INCLUDE, built from disk: the include machinery (scanner stack, file reads) runs concurrently too
+			for slot := 8; slot < 12; {
+				p := corpus[r.Intn(len(corpus))]
+				if !p.HasInclude() {
+					continue
+				}
+				cj.Projects[slot] = proto.ConcProject{Name: p.Name, Files: p.Files, Root: p.Root}
+				slot++
+			}
 			// every other batch is a cold start: a fresh process whose first use of the library is concurrent
 			j := &proto.Job{ID: fmt.Sprintf("conc/batch-%d", b), Conc: cj}
 			if b%2 == 1 {
